@@ -1027,6 +1027,11 @@ def gen0(tier, rng, shard, nshards):
     def rdomains(rng):
         names = [b"a.example.com", b"b.example.com", b"10.0.0.1", b"", b"c\xe9", b"a.example.com"]
         paths = [b"/x", b"/__utm.gif", b"/x", b"", b"/\xff", b"/en_US/all.js"]
+        if rng.random() < 0.3:
+            # spellings that a normalising rewrite would merge (case, trailing dot, surrounding blanks, percent-escapes): the
+            # property is about the strings as encoded
+            names = names + [b"A.Example.com", b"A.EXAMPLE.COM", b"a.example.com.", b" a.example.com", b"a.example.com ", b"C\xc9", b"010.0.0.1"]
+            paths = paths + [b"/X", b"/x/", b"/x ", b"/%78", b"//x", b"/en_us/all.js"]
         n = rng.choice([0, 1, 2, 3, 4, 5, 7])
         items = []
         for i in range(n):
